@@ -39,12 +39,23 @@ def correlate_shape(ns, ps, ds, ks, ss):
 
 
 def impl_conv_out(args):
+    """the result of one call -- and of a second call with the very same argument objects, whose contents the
+    function must have left alone (hyper-parameter arrays are routinely shared between layers)"""
     from nir.ir.utils import calculate_conv_output
     try:
         with warnings.catch_warnings():
             warnings.simplefilter("ignore")
-            r = calculate_conv_output(*[build(a) for a in args])
-        return {"r": canon(r)}
+            built = [build(a) for a in args]
+            before = [canon(b) for b in built]
+            r = calculate_conv_output(*built)
+            out = {"r": canon(r)}
+            if [canon(b) for b in built] != before:
+                out["mutated_args"] = [i for i, b in enumerate(built) if canon(b) != before[i]]
+            else:
+                r2 = calculate_conv_output(*built)
+                if canon(r2) != out["r"]:
+                    out["second_call"] = canon(r2)
+        return out
     except Exception as e:  # noqa
         return {"err": err_name(e)}
 
@@ -100,6 +111,11 @@ def run(ctx):
             ctx.violate(case, "calculate_conv_output differs from the sliding-window count for some container form",
                         {"site": "calculate_conv_output", "form": "mixed", "mode": mode},
                         observed=o, required=want)
+        elif "mutated_args" in o or "second_call" in o:
+            ctx.violate(case, "calculate_conv_output changed its arguments (a second layer sharing the same "
+                        "hyper-parameter array gets a different shape)",
+                        {"site": "calculate_conv_output", "form": "shared-args", "mode": mode}, observed=o, required=want)
+            o = {"r": o["r"]}
         cases.append(case); obs.append(o); reqs.append(case)
     # large sizes (below 2^40; float64 floor division exact)
     for _ in range(ctx.n(60)):
